@@ -188,6 +188,27 @@ example : (run (init lCfgs) (by_ 0 (upToProbe ++ histOps ++ [.unlink, .bind, .li
       by_ 1 (upToProbe ++ histOps ++ [.unlink, .bind, .listen, .execStep]))).map
     (fun w => ((w.agents 0).pc, (w.agents 1).pc, executing (w.agents 0))) = some (.shutClose, .finalWrite, false) := by decide
 
+/-! ### the file saved again while a run is active (new inode, same path) -/
+
+/-- agent 0 started the file before it was saved again, agent 1 opens the path afterwards: another inode,
+    hence another lock (`dag` 0 / 1), but the same path spelling, hence the same socket name -/
+def rCfgs : List Cfg := [{ dag := 0, steps := 2, sock := 0 }, { dag := 1, steps := 2, sock := 0 }]
+
+/-- the lock does not collide any more; what refuses the second start is the probe of the first run's
+    endpoint (`C16_sequential`: answered — or timed out — while it is listening ⇒ refused, nothing touched) -/
+example : (run (init rCfgs) (by_ 0 (upToProbe ++ histOps ++ [.unlink, .bind, .listen, .execStep]) ++
+      by_ 1 upToProbe)).map (fun w => (verdict (w.agents 1), w.lk 0, w.lk 1, w.ns 0)) =
+    some ((.refused, 0, 0, 0, 0), some 0, none, .bound 0 true) := by decide
+
+/-- **what remains for a file saved again**: the probe protects only once the first run is LISTENING. A start
+    of the re-saved file that falls into the first run's window between its probe and its listen is not
+    refused (the old probe/bind race, between two lock keys): both end up executing steps. The mirror image of
+    the `OneSpelling` case — there the lock protects and the socket does not, here the socket protects and the
+    lock does not; `C16_full` and `C16_lock_exclusive` need the same file identity, `C16_sequential` does not. -/
+theorem C16_resaved_still_races :
+    (run (init rCfgs) wTrace).map (fun w => ((w.agents 0).sock == (w.agents 1).sock, midRun (w.agents 0), midRun (w.agents 1))) =
+      some (true, true, true) := by decide
+
 /-! ### witnesses / non-vacuity -/
 
 def oCfgs : List Cfg := [{ dag := 0, steps := 2 }, { dag := 0, steps := 2 }]
@@ -230,3 +251,4 @@ end BdModel.P16
 #print axioms BdModel.P16.C16_bound_means_active
 #print axioms BdModel.P16.C16_locality
 #print axioms BdModel.P16.C16_unlocked_still_races
+#print axioms BdModel.P16.C16_resaved_still_races
